@@ -5,6 +5,7 @@ The "IDCT∘FDCT within one" sentence is false (known finding, `idct_fdct_not_wi
 known about the true maximum (between 2 and 4) is in the note at the end.
 -/
 import WuffsVerif.Proof.JpegDct
+import WuffsVerif.Proof.JpegDctLow
 import WuffsVerif.Proof.JpegDctBudgetA
 import WuffsVerif.Proof.JpegDctBudgetB
 import WuffsVerif.Proof.JpegDctBudgetC
@@ -80,6 +81,47 @@ theorem fdct_sum_bounds (src : Array Nat) (hsrc : ∀ i, src.getD i 0 ≤ 255) (
 example : (∀ i, (Array.replicate 64 0 : Array Nat).getD i 0 ≤ 255) := by
   intro i; simp [Array.getD]
 
+/-! ### no int64 overflow in `InverseDCTFrom`, for any int16 input -/
+
+theorem mul_natAbs_le (a b : Int) (A B : Nat) (ha : a.natAbs ≤ A) (hb : b.natAbs ≤ B) :
+    (a * b).natAbs ≤ A * B := by
+  rw [Int.natAbs_mul]; exact Nat.mul_le_mul ha hb
+
+/-- every entry of `cosines` (and the default for an index out of range) is within ±2^16 -/
+theorem cosAt_bound (x u : Nat) : (cosAt x u).natAbs ≤ 65536 := by
+  have hall : cosines.toList.all (fun c => decide (c.natAbs ≤ 65536)) = true := by decide
+  unfold cosAt
+  rw [getD_toList, List.getD_eq_getElem?_getD]
+  cases hi : cosines.toList[((2 * x + 1) * u) % 32]? with
+  | none => simp
+  | some c =>
+    have := (List.all_eq_true.mp hall) c (List.mem_of_getElem? hi)
+    simpa using this
+
+/-- the weight `alphas16 * c16` of any coefficient in any pixel is within ±2^30 -/
+theorem idct_weight_bound (u v i : Nat) : (alphas16 u v * ((c32 u v i + 32768) / 65536)).natAbs ≤ 16384 * 65536 := by
+  have ha : (alphas16 u v).natAbs ≤ 16384 := by
+    unfold alphas16 halfAlpha16
+    split <;> split <;> decide
+  have hc : (c32 u v i).natAbs ≤ 65536 * 65536 := mul_natAbs_le _ _ _ _ (cosAt_bound _ _) (cosAt_bound _ _)
+  have hc16 : ((c32 u v i + 32768) / 65536).natAbs ≤ 65536 := by omega
+  exact mul_natAbs_le _ _ _ _ ha hc16
+
+/-- **no int64 overflow in `InverseDCTFrom`**: for ANY block of int16 values, every partial sum of
+    `alphasSum32` is within ±(number of terms)·2^45 ≤ 2^51, so `alphasSum32 + (1 << 31)` is far from
+    2^63 and the model's unbounded `Int` arithmetic is what the Go code computes -/
+theorem idct_sum_bounds (src : Nat → Int) (hsrc : ∀ k, -32768 ≤ src k ∧ src k ≤ 32767) (i : Nat) (l : List Nat) :
+    (isum32 src i l).natAbs ≤ l.length * 35184372088832 := by
+  induction l with
+  | nil => simp [isum32]
+  | cons k ks ih =>
+    have hs : (src k).natAbs ≤ 32768 := by have := hsrc k; omega
+    have ht := mul_natAbs_le _ _ _ _ hs (idct_weight_bound (k % 8) (k / 8) i)
+    simp only [isum32, List.length_cons]
+    generalize src k * (alphas16 (k % 8) (k / 8) * ((c32 (k % 8) (k / 8) i + 32768) / 65536)) = t at ht
+    generalize isum32 src i ks = r at ih
+    omega
+
 /-! ### IDCT ∘ FDCT: the bound that holds for every block (K = 4) -/
 
 /-- the error budget (`Proof/JpegDctBound.lean`) of every pixel is below 4.25·10^24 ≈ 3.5155 · 2^80:
@@ -144,6 +186,44 @@ theorem idct_fdct_within_four (src : Array Nat) (hsrc : ∀ i, src.getD i 0 ≤ 
     split <;> omega
   · omega
 
+/-- the negative side, sharpened: `result0 ≥ (src[i] − 128) − 3`.  Uses that the DC coefficient is
+    exactly round-half-up(Σ s / 8) (`DctB.fdctPost_dc`), whose residue is one-sided (≥ −3/8) and
+    whose IDCT weight is positive in every pixel (`Proof/JpegDctLow.lean`). -/
+theorem idctRaw_fdct_ge_minus_three (src : Array Nat) (hsrc : ∀ i, src.getD i 0 ≤ 255) (i : Nat) (hi : i < 64) :
+    -3 ≤ idctRaw (forwardDCT src) i - (((src.getD i 0 : Nat) : Int) - 128) := by
+  have hT : isum32 (fun k => (forwardDCT src).getD k 0) i (List.range 64) =
+      dot (fdctCoef src) (fun k => wL k i) (List.range 64) := by
+    rw [isum32_eq_L _ (fdctCoef src) i (List.range 64)
+      (fun k hk => forwardDCT_getD_exact src hsrc k (List.mem_range.mp hk)), isum32L_eq_dot]
+  unfold idctRaw
+  rw [hT]
+  have a := acc_error_low src hsrc i hi
+  simp only at a
+  exact raw_ge_minus_three _ _ _ a (budget_le i hi)
+
+/-- **idct_fdct_error_range**: for EVERY 8×8 block of bytes and every pixel,
+    −3 ≤ `InverseDCTFrom(ForwardDCTFrom(b))[i] − b[i]` ≤ +4. -/
+theorem idct_fdct_error_range (src : Array Nat) (hsrc : ∀ i, src.getD i 0 ≤ 255) (i : Nat) (hi : i < 64) :
+    -3 ≤ (((inverseDCT (forwardDCT src)).getD i 0 : Nat) : Int) - ((src.getD i 0 : Nat) : Int) ∧
+    (((inverseDCT (forwardDCT src)).getD i 0 : Nat) : Int) - ((src.getD i 0 : Nat) : Int) ≤ 4 := by
+  refine ⟨?_, (idct_fdct_within_four src hsrc i hi).2⟩
+  have h1 : (inverseDCT (forwardDCT src)).getD i 0 =
+      biasAndClamp.getD ((idctRaw (forwardDCT src) i) % 1024).toNat 0 := by
+    simp [inverseDCT, Array.getD, hi]
+  have hr := idctRaw_fdct_within_four src hsrc i hi
+  have hl := idctRaw_fdct_ge_minus_three src hsrc i hi
+  have hb := hsrc i
+  rw [h1]
+  generalize idctRaw (forwardDCT src) i = R at hr hl ⊢
+  generalize src.getD i 0 = b at hr hl hb ⊢
+  generalize hn : (R % 1024).toNat = n
+  have hn1 : n < 1024 := by omega
+  rw [biasAndClamp_getD n hn1]
+  split
+  · rw [Nat.min_def]
+    split <;> omega
+  · omega
+
 /-- non-vacuity / tightness: the bound is not vacuous (hypothesis satisfiable, see the `example`
     after `fdct_sum_bounds`), and it cannot be lowered below 2 (`idct_fdct_not_within_one`). -/
 example : (∀ i, (Array.replicate 64 255 : Array Nat).getD i 0 ≤ 255) := by
@@ -161,9 +241,9 @@ example : (∀ i, (Array.replicate 64 255 : Array Nat).getD i 0 ≤ 255) := by
 --   * OPEN: K = 3 and K = 2.  The analysis treats the 64 rounding residues of the FDCT as
 --     independent; the third term is ½·‖row of the IDCT matrix‖₁ = ½·6.979 and cannot be improved
 --     without using how the residues depend on the block, which is a closest-vector question for
---     the lattice (orthonormal DCT)(ℤ^64) in dimension 64.  K = 3 fails by 0.0116 (4.0116 > 4);
---     using that the DC coefficient is exactly round(Σ s / 8) with ties upwards would give −3 on
---     the negative side only.  K = 2 is what the search sees (3·10⁶ random + 6000 hill-climbed
+--     the lattice (orthonormal DCT)(ℤ^64) in dimension 64.  K = 3 fails by 0.0116 (4.0116 > 4) on
+--     the positive side; on the negative side the exactness of the DC coefficient (round-half-up
+--     of Σ s / 8, residue ≥ −3/8) gives −3 (`idct_fdct_error_range`).  K = 2 is what the search sees (3·10⁶ random + 6000 hill-climbed
 --     blocks per thorough run: never above 2; error 2 in about 1 of 10⁵ random blocks); an error
 --     of 3 needs the residues to line up to 72 % of the extreme, about 8.7 standard deviations for
 --     independent uniform residues (p ≈ 10⁻¹⁷ per pixel) — too rare for search, not excluded by it.
